@@ -16,7 +16,7 @@ META = {
         "xonsh seeds, G4 token/line mutations and prefixes of all of these (incl. nasty characters), G9 character soup with "
         "dictionary fragments, layout variants (CRLF, tabs, form feeds, no final newline); every text on which generate_tokens "
         "finishes is checked against the pure tiling oracle (slice equality, order, gap shape, NEWLINE/INDENT/DEDENT/ENDMARKER "
-        "structure). non-trivial = >=2 physical lines and at least one of {multi-line token, tab/form feed, CRLF, non-ASCII, "
+        "structure; a line end outside brackets that follows a significant token must be a NEWLINE token, a line end inside brackets the text has opened and not closed must not be one). non-trivial = >=2 physical lines and at least one of {multi-line token, tab/form feed, CRLF, non-ASCII, "
         "backslash continuation, indentation change}; distinct by text."
     ),
     "assumptions": [
